@@ -2,7 +2,7 @@
    specification and the checkers.  ExtrOcamlBasic only. *)
 From Coq Require Import List ZArith QArith Extraction ExtrOcamlBasic.
 From LMBase Require Import Res ListX IEEE.
-From LMDist Require Import DistModel DistInst.
+From LMDist Require Import DistModel DistInst DistGridModel.
 
 Definition x_f64_of_bits := F64.of_bits.
 Definition x_f64_to_bits := F64.to_bits.
@@ -16,9 +16,9 @@ Definition f64_is_nan := F64.is_nan.
 Extraction Language OCaml.
 Extraction "dist_model.ml"
   x_f64_of_bits x_f64_to_bits x_f32_of_bits x_f32_to_bits x_f64_of_f32 x_f64_to_f32 f64_le f64_is_nan
-  f64_build f64_pvalue f64_score f64_scale f64_unscale_m f64_min_pvalue f64_roundtrip f64_sample
+  f64_build f64_build_fast f64_pvalue f64_score f64_scale f64_unscale_m f64_min_pvalue f64_roundtrip f64_sample
   f64_chk_table f64_chk_mono f64_chk_roundtrip
   f64_to_Q f32_to_Q f64_cell q_stage_a f64_ninf_agrees word_table tail_tab chk_bracket mass_defect
   f64_bsearch f64_index_exact f64_unscale_exact_on f64_roundtrip_pred f64_me common_k dy_cells at_k word_tableZ tail_tabZ tail_dy chk_bracket_dy chk_roundtrip_q
-  check_C11_fails check_C11 c11_in_scope c11_k c11_j c11_zc c11_zb c11_qm c11_delta
+  check_C11_fails check_C11 check_C11_grid_fails check_C11_grid conv_tableZ c11_in_scope c11_k c11_j c11_zc c11_zb c11_qm c11_delta
   Qle_bool Qred.
